@@ -31,6 +31,7 @@ CONSTANTS Kinds,     \* families of cases explored in this run
           NearM,     \* set of radii m of the near-diameter family
           Bx,        \* bound on the entries of interior reference points
           Bw,        \* bound on the entries of hyperplane normals
+          Bs,        \* bound on the entries of the ideal points used as bases of subspaces
           Thin       \* keep one set of ideal points in Thin as a basis of a subspace (deterministic thinning)
 
 VARIABLE cs
@@ -64,10 +65,11 @@ HoroCases(U) == {[kind |-> "horo", U |-> U, X |-> X] : X \in SquarePts}
 SameHoro(U, X, Y) == MDot(X, U) * MDot(X, U) * NN(Y) = MDot(Y, U) * MDot(Y, U) * NN(X)
 ArcCases(U) == {c \in {[kind |-> "horoarc", U |-> U, X |-> X, Y |-> Y] : X \in SquarePts, Y \in SquarePts} : c.X # c.Y /\ SameHoro(U, c.X, c.Y)}
 
+SubIdeal == {v \in IdealPts : \A i \in 1..(N + 1) : Abs(v[i]) <= Bs}
 \* strictly increasing (lexicographic) tuples of k+1 ideal points = sets of k+1 ideal points, starting at z0
 RECURSIVE IncTuples(_, _)
 IncTuples(z0, m) == IF m = 1 THEN {<<z0>>}
-                    ELSE UNION {{Append(t, z) : z \in {y \in IdealPts : LexLess(t[Len(t)], y)}} : t \in IncTuples(z0, m - 1)}
+                    ELSE UNION {{Append(t, z) : z \in {y \in SubIdeal : LexLess(t[Len(t)], y)}} : t \in IncTuples(z0, m - 1)}
 Weight(t) == ISum([i \in 1..Len(t) |-> ISum([j \in 1..Len(t[i]) |-> (3 * i + j) * (t[i][j] + B)])])
 \* three distinct null vectors are independent
 SubOK(t) == Weight(t) % Thin = 0 /\ (Len(t) = 3 \/ RankOf(t) = Len(t))
@@ -81,7 +83,7 @@ Init == \/ "segment" \in Kinds /\ cs \in {Seed("segment", U) : U \in IdealPts}
         \/ "near" \in Kinds /\ N = 2 /\ cs \in {Seed("near", U) : U \in AxisPts}
         \/ "horo" \in Kinds /\ cs \in {Seed("horo", U) : U \in IdealPts}
         \/ "horoarc" \in Kinds /\ N = 2 /\ cs \in {Seed("horoarc", U) : U \in IdealPts}
-        \/ "subspace" \in Kinds /\ cs \in {Seed("subspace", U) : U \in IdealPts}
+        \/ "subspace" \in Kinds /\ cs \in {Seed("subspace", U) : U \in SubIdeal}
         \/ "hyperplane" \in Kinds /\ cs \in {Seed("hyperplane", w1) : w1 \in 0..Bw}
 Grow(sd) == CASE sd.fam = "segment" -> SegCases(sd.x)
               [] sd.fam = "near" -> NearCases(sd.x)
@@ -203,8 +205,8 @@ SegHalf ==
        /\ DistSqCD(HsHoriz(cs.U), m) = r2 /\ DistSqCD(HsHoriz(cs.V), m) = r2 /\ RSgn(r2) > 0
        /\ N = 2 => /\ HsPoleCentre(Normal3(cs.U, cs.V)) = m /\ HsPoleRadSq(Normal3(cs.U, cs.V)) = r2   \* the pole describes the same circle
                    /\ HsHoriz(P1) # HsHoriz(P2)
-       /\ Lit => /\ HsDistSq(P1, m) = r2 /\ HsDistSq(P2, m) = r2
-                 /\ (N = 2) => HsCentre2(P1, P2) = m[1]
+       /\ SmallSeg => HsDistSqIs(P1, m, r2) /\ HsDistSqIs(P2, m, r2)
+       /\ (Lit /\ N = 2) => HsCentre2(P1, P2) = m[1]
        /\ (Lit /\ SquareSeg) =>
             LET h1 == Halfspace(Prim(P1))
                 h2 == Halfspace(Prim(P2))
@@ -296,7 +298,9 @@ SubLaws ==
   Kind = "subspace" =>
     LET pts == SubPts
         m == Len(cs.basis)
-    IN /\ \A z \in pts : MNorm(z) = 0 /\ z[1] > 0 /\ RankOf(Append(cs.basis, z)) = m
+    IN /\ ElimOk(cs.basis) /\ ElimOk(Append(cs.basis, E0)) /\ ElimOk(Append(cs.basis, Inf))    \* the emitted flags are exact
+       /\ RankOf(cs.basis) = m
+       /\ \A z \in pts : MNorm(z) = 0 /\ z[1] > 0 /\ (ElimOk(Append(cs.basis, z)) => RankOf(Append(cs.basis, z)) = m)
        /\ Cardinality(pts) > m
        /\ SubHs => \A z \in pts : ~AtHsInfinity(z)
        /\ ~SubStraight =>
